@@ -18,6 +18,7 @@ import (
 	"path/filepath"
 	"sort"
 	"strings"
+	"sync"
 	"testing"
 	"time"
 
@@ -29,6 +30,7 @@ import (
 	"oras.land/oras-go/v2/content/oci"
 	"oras.land/oras-go/v2/errdef"
 	"oras.land/oras-go/v2/registry"
+	"oras.land/oras-go/v2/verifhook"
 	"verif/harness/vh"
 )
 
@@ -50,6 +52,10 @@ type Scenario struct {
 	Ops      []Op          `json:"ops"`
 	Reopen   string        `json:"reopen"` // "all": reopen three ways after every mutating op; "end": only at the end
 	Annot    []bool        `json:"annot"`  // OCI: the descriptor used to tag node k carries annotations
+	Par      []Op          `json:"par,omitempty"` // concurrent tail: operations run as goroutines after Ops
+	Prefix   []int         `json:"prefix,omitempty"`
+	Seed     int64         `json:"seed,omitempty"`
+	Choices  []int         `json:"choices,omitempty"`
 }
 
 var refs = []string{"t1", "t2", "v1.0"}
@@ -367,9 +373,9 @@ func RunOne(t *testing.T, sc *Scenario, tr *vh.Tracer, base string) bool {
 			r.reopen(ctx, "rw")
 		}
 	}
-	for i, op := range sc.Ops {
-		m := map[string]any{"e": "op", "op": op.Op, "n": op.N, "ref": op.Ref}
-		mutating := true
+	doOp := func(op Op) (m map[string]any, mutating bool) {
+		m = map[string]any{"e": "op", "op": op.Op, "n": op.N, "ref": op.Ref}
+		mutating = true
 		var lastErr error
 		cls := func(err error) string { lastErr = err; return class(err) }
 		switch op.Op {
@@ -459,14 +465,52 @@ func RunOne(t *testing.T, sc *Scenario, tr *vh.Tracer, base string) bool {
 		if lastErr != nil {
 			m["msg"] = lastErr.Error()
 		}
+		return m, mutating
+	}
+	for i, op := range sc.Ops {
+		m, mutating := doOp(op)
 		tr.Emit(m)
 		if m["res"] == "hang" {
 			return false
 		}
 		if mutating {
-			observeAll(i == len(sc.Ops)-1, op.Op)
+			observeAll(i == len(sc.Ops)-1 && len(sc.Par) == 0, op.Op)
 		}
 	}
+	if len(sc.Par) == 0 {
+		return true
+	}
+	// the concurrent tail: the operations of sc.Par run as goroutines, released one scheduling point at a time
+	tr.Emit(map[string]any{"e": "par", "ops": sc.Par})
+	ps := &vh.PSched{Quiet: time.Duration(vh.EnvInt("VH_QUIETUS", 400)) * time.Microsecond}
+	verifhook.Set(ps.Point)
+	var emu sync.Mutex
+	for k, op := range sc.Par {
+		k, op := k, op
+		ps.Go(k, func() {
+			m, _ := doOp(op)
+			m["e"], m["k"] = "pop", k+1
+			emu.Lock()
+			tr.Emit(m)
+			emu.Unlock()
+		})
+	}
+	rng := rand.New(rand.NewSource(sc.Seed))
+	hang := ps.Run(func(step int, pend []*vh.POp) int {
+		if step < len(sc.Prefix) {
+			return sc.Prefix[step]
+		}
+		return rng.Intn(len(pend))
+	})
+	verifhook.Set(nil)
+	sc.Choices = ps.Choices
+	if hang {
+		tr.Emit(map[string]any{"e": "parhang"})
+		ps.ReleaseAll()
+		return false
+	}
+	tr.Emit(map[string]any{"e": "parend"})
+	observeAll(true, "par")
 	return true
 }
 
@@ -563,6 +607,44 @@ func genScenario(rng *rand.Rand, kind string) Scenario {
 			sc.Ops = append(sc.Ops, Op{Op: "gc"})
 		default:
 			sc.Ops = append(sc.Ops, Op{Op: "tags", Last: []string{"", "t1", "t2", "a", "z"}[rng.Intn(5)]})
+		}
+	}
+	if rng.Intn(100) < vh.EnvInt("VH_PARPCT", 50) {
+		// a concurrent tail of 2-3 operations, biased towards the same node / the same reference
+		sc.Seed = rng.Int63()
+		hot, hotref := node(), ref()
+		pn := func() int {
+			if rng.Intn(3) != 0 {
+				return hot
+			}
+			return node()
+		}
+		pr := func() string {
+			if rng.Intn(3) != 0 {
+				return hotref
+			}
+			return ref()
+		}
+		for k := 2 + rng.Intn(2); k > 0; k-- {
+			x := rng.Intn(100)
+			switch {
+			case x < 25:
+				sc.Par = append(sc.Par, Op{Op: "push", N: pn()})
+			case x < 55:
+				sc.Par = append(sc.Par, Op{Op: "tag", N: pn(), Ref: pr()})
+			case x < 62:
+				sc.Par = append(sc.Par, Op{Op: "fetch", N: pn()})
+			case x < 66:
+				sc.Par = append(sc.Par, Op{Op: "pred", N: pn()})
+			case kind != "oci":
+				sc.Par = append(sc.Par, Op{Op: "tag", N: pn(), Ref: pr()})
+			case x < 74:
+				sc.Par = append(sc.Par, Op{Op: "untag", Ref: pr()})
+			case x < 94:
+				sc.Par = append(sc.Par, Op{Op: "delete", N: pn()})
+			default:
+				sc.Par = append(sc.Par, Op{Op: "gc"})
+			}
 		}
 	}
 	return sc
